@@ -134,6 +134,15 @@ def c09(chk, tier):
     p_async.run_async(chk, tier)
     if chk.pid in STEP_OPS:
         step(chk, tier)
+    if chk.pid == "C10":
+        # what the WithOrigin exfiltrator hands out for real deliveries (kill, raise, sigqueue, timers,
+        # child events): the same probes as C17, judged as "a faithful copy of one delivery"
+        import os
+        out = os.path.join(p_probes.WORK, "probe_C10_origin.ndjson")
+        recs = p_probes.run_probe("origin", [], out)
+        p_probes.count(chk, recs, lambda r: (r["e"], r.get("signo", r.get("sig")), r.get("code", r.get("how"))))
+        found = p_probes.validate_records(chk, "TraceOrigin.tla", out, "V_C10", "origin")
+        p_probes.report(chk, found, "origin", [])
 
 
 CHECKS = {"C12": p_probes.c12, "C13": p_probes.c13, "C14": p_probes.c14, "C15": p_probes.c15,
